@@ -75,3 +75,9 @@ package lexer
 //@   loop 1 modifies obj(l)
 //@   loop 1 invariant[end] l.end >= 0
 //@   ensures[rewind] !ok ==> l.end == old(l.end) && l.loc.Line == old(l.loc.Line) && l.loc.Column == old(l.loc.Column) && l.prev.Line == old(l.prev.Line) && l.prev.Column == old(l.prev.Column)
+
+// the grammar of number tokens, as the sequence of accept / acceptRun calls of scanNumber (C12): an optional
+// 0x / 0o / 0b prefix, digits, an optional fraction, an optional exponent with an optional sign
+//@ func lexer.lexer.scanNumber
+//@   property C12
+//@   schema accepts 0 xX oO bB * . * eE +- *
